@@ -240,9 +240,17 @@ func (w *World) migrateLetter(arg string) bool {
 	if arg[0] == '1' {
 		v, vi = klevdb.V1, 1
 	}
+	// a closed log that passes Check passes it after the migration as well (a migrated log behaves like
+	// one written in that version: it can be opened with Check); differential, no expected value of ours
+	cleanBefore := klevdb.Check(w.Dir, w.Cfg.Options())
 	if err := klevdb.Migrate(w.Dir, w.Cfg.Options(), v); err != nil {
 		w.failf("C17", "Migrate(V%d) failed: %v", vi, err)
 		return false
+	}
+	if cleanBefore == nil {
+		if err := klevdb.Check(w.Dir, w.Cfg.Options()); err != nil {
+			w.failf("C17", "the closed log passed Check before Migrate(V%d) and fails it afterwards: %v", vi, err)
+		}
 	}
 	bases, vers := SegVersions(w.Dir)
 	for i, sv := range vers {
